@@ -769,7 +769,7 @@ func (m *mbModel) pduFields(f *kit.Func, e ast.Expr, ret *ast.ReturnStmt) (fc, d
 // R4 no write on read, single write, guarded store
 
 func c18R4(c *kit.Ctx, m *mbModel) {
-	r := c.Rule("R4", "reads never write; a single write writes at most once; stores are guarded", 6)
+	r := c.Rule("R4", "reads never write; a single write writes at most once; stores are guarded", 14)
 	info := m.Req.Info()
 	for _, arm := range m.Arms {
 		read, single := false, false
@@ -820,7 +820,71 @@ func c18R4(c *kit.Ctx, m *mbModel) {
 			}
 		}
 	}
+	// every arm: a failing provider call is answered through the mapper with its error
+	for _, arm := range m.Arms {
+		for _, code := range arm.Codes {
+			m.checkProviderError(c, r, arm, code)
+		}
+	}
 	c18Stores(c, m, r)
+}
+
+// checkProviderError evaluates the arm with every provider call failing.
+func (m *mbModel) checkProviderError(c *kit.Ctx, r *kit.Rule, arm *mbArm, code int64) {
+	var words map[int64]int64
+	if mbQuantityLimit[code] != 0 {
+		words = map[int64]int64{2: 1}
+	}
+	ip := m.reqInterp(code, -1, words)
+	calls := 0
+	ip.OnCall = func(call *ast.CallExpr, args []kit.IVal) (string, []kit.IVal) {
+		names, _, ok := m.providerCall(m.Req, call)
+		if !ok {
+			return "", nil
+		}
+		calls++
+		sig, _ := m.Req.Info().TypeOf(call.Fun).Underlying().(*types.Signature)
+		if sig == nil {
+			return "", nil
+		}
+		out := make([]kit.IVal, sig.Results().Len())
+		for i := range out {
+			out[i] = kit.IVal{K: 'u', Env: true}
+		}
+		out[len(out)-1] = kit.IVal{K: 'e'}
+		return "fail:" + strings.Join(names, "|"), out
+	}
+	res := ip.Run()
+	c.AddValuations(1)
+	if calls == 0 {
+		return // the arm does not touch the provider
+	}
+	o := r.Ob(m.Req, arm.Clause, fmt.Sprintf("%s: provider error answered (code %d)", arm.label(), code), "when the register provider refuses an access the request is answered through the exception mapper with that error, and nothing further is accessed")
+	if len(res.Unsupported) > 0 || res.Overflow {
+		o.Undecided("evaluation failed: %v", res.Unsupported)
+		return
+	}
+	seen := 0
+	for _, e := range res.Exits {
+		if len(e.Trace) == 0 || e.Ret == nil {
+			continue
+		}
+		seen++
+		_, errVar, isExc := m.excReturn(m.Req, e.Ret)
+		switch {
+		case e.Tainted:
+			o.Undecided("exit at %s depends on a value the evaluator cannot follow", m.Req.At(e.Ret))
+		case len(e.Trace) > 1:
+			o.Violation("after the provider refused %s the request goes on to %s", e.Trace[0], strings.Join(e.Trace[1:], ","))
+		case !isExc || errVar == nil:
+			o.Violation("the provider refused %s, yet the request is answered by `%s` (%s) instead of the mapped error", e.Trace[0], trunc(m.Req.Str(e.Ret), 60), m.Req.At(e.Ret))
+		}
+	}
+	if seen == 0 {
+		o.Undecided("no exit after a provider call was reached")
+		return
+	}
+	o.OK("%d exit(s) after a refused access, all `return %s(err)`", seen, m.Mapper.Name)
 }
 
 func (m *mbModel) checkSingleWrite(c *kit.Ctx, o *kit.Ob, arm *mbArm, code int64) {
